@@ -73,6 +73,30 @@ func TestC02(t *testing.T) {
 			t.Fatalf("Filter result differs from model (kept rows want %v): %s\n%s\nresult %s", keep, diff, desc(), got.String())
 		}
 
+		// follow-up calls on the result: whatever a frame remembers about how it was made, a later Filter looks at its
+		// own clause - another clause narrows further, the same clause again changes nothing
+		if rapid.IntRange(0, 3).Draw(t, "followup") == 0 {
+			clause2 := hx.GenClause(t, in, 2, hx.ClauseOpt{})
+			r2 := res.Filter(clause2.Build(hx.KindMap(in)))
+			var keep2 []int
+			for _, r := range keep {
+				if clause2.Eval(in, r) {
+					keep2 = append(keep2, r)
+				}
+			}
+			g2, err := hx.Observe(r2)
+			if err != nil || r2.Err != nil {
+				t.Fatalf("second Filter on the result: %v %v\n%s\nsecond clause %s", r2.Err, err, desc(), clause2.String())
+			}
+			if diff := hx.Diff(in.Rows(keep2), g2); diff != "" {
+				t.Fatalf("Filter(%s) of the Filter result differs from the model: %s\n%s", clause2.String(), diff, desc())
+			}
+			r3 := res.Filter(realClause)
+			g3, err := hx.Observe(r3)
+			if err != nil || r3.Err != nil || hx.Diff(want, g3) != "" {
+				t.Fatalf("the same Filter applied to its own result changed it: %v %v %s\n%s", r3.Err, err, hx.Diff(want, g3), desc())
+			}
+		}
 		// classification
 		negNull := false
 		classes := []string{}
